@@ -332,7 +332,12 @@ def c16(size, seed):
 
 # ----------------------------------------------------------------------------- C17
 VOCAB = ["t", "time", "Time", "T", "z", "Z", "y", "Y", "x", "X", "id", "ID", "parent_id", "Parent ID", "seg_id", "label",
-         "area", "Area", "area2", "track_id", "Tracklet ID", "lineage_id", "iou", "IoU", "circularity", "custom", "pos", "position"]
+         "area", "Area", "area2", "track_id", "Tracklet ID", "lineage_id", "iou", "IoU", "circularity", "custom", "pos", "position",
+         "Y2", "X2", "yy", "x_", "z_", "major_axis_len", "major_axis_length", "Circularity2", "perimeter_", "Perimeter"]
+# column lists in which two columns compete for the same slot (exactly or fuzzily)
+COMPETING = [("t", "Y", "X", "Y2", "X2", "id", "parent_id"), ("t", "Y", "yy", "x"), ("X", "x_", "y", "t"), ("z_", "Z", "y", "x", "t"),
+             ("t", "y", "x", "major_axis_len", "major_axis_length"), ("Area", "area2", "t"), ("Perimeter", "perimeter_", "t", "y", "x"),
+             ("Circularity2", "circularity", "t"), ("T", "Time", "time"), ("ID", "id", "Parent ID", "parent_id")]
 
 
 def c17_case(cols, required, ndim, edge):
@@ -365,7 +370,8 @@ def c17(size, seed):
     if size == "quick":
         pool = rng.sample(pool, 1200)
     extra = [tuple(rng.sample(VOCAB, rng.randrange(4, 9))) for _ in range(400 if size == "quick" else 4000)]
-    extra += [("t", "Z", "y", "x", "id", "parent_id"), ("Area", "area", "area2"), ("z", "Z", "y", "x")]
+    extra += [("t", "Z", "y", "x", "id", "parent_id"), ("Area", "area", "area2"), ("z", "Z", "y", "x")] + COMPETING
+    extra += [tuple(rng.sample(c, len(c))) for c in COMPETING for _ in range(3)]
     for cols in pool + extra:
         for ndim in (None, 3, 4):
             for req in reqs:
@@ -455,9 +461,26 @@ def c18(size, seed):
                         viol.append({"what": "c18p", "pts": pts, "dmax": dmax, "bad": bad})
                         if len(viol) > 3:
                             return cases, nontrivial, viol
+    # linked pair, gap, linked pair (and longer): the state carried across a gap must be rebuilt
+    for ts in ((0, 1, 3, 4), (0, 1, 1, 3, 4), (0, 1, 3, 3, 4), (0, 1, 3, 4, 4), (0, 1, 3, 4, 6, 7), (1, 2, 4, 5)):
+        for xs in itertools.product((0.0, 1.0, 3.0), repeat=len(ts)):
+            if len(ts) == 6 and (hash(xs) % 3):
+                continue
+            pts = [[ts[i], 0.0, xs[i]] for i in range(len(ts))]
+            for dmax in (1.0, 2.5):
+                cases += 1
+                nontrivial += 1
+                try:
+                    bad = c18_points_case(pts, dmax, None)
+                except Exception as e:
+                    bad = [f"crash {type(e).__name__}: {e}"]
+                if bad:
+                    viol.append({"what": "c18p", "pts": pts, "dmax": dmax, "bad": bad})
+                    if len(viol) > 3:
+                        return cases, nontrivial, viol
     rng = random.Random(seed)
     for _ in range(150 if size == "quick" else 1500):
-        frames = rng.randrange(2, 5)
+        frames = rng.randrange(2, 7)
         seg = np.zeros((frames, 4, 5), dtype=np.int64)
         lab = 1
         for t in range(frames):
